@@ -1,29 +1,30 @@
 (** C11 -- both solver back-ends solve the same problem and report duals in one convention.
     Property theorems only; proofs in Proofs/C11Run.v (executable side), Proofs/C11Sem.v (meaning, duals),
-    Proofs/C11Refuted.v (witnesses).  Model: Model/Mosek.v.
+    Proofs/C11Regress.v (instances, regression examples).  Model: Model/Mosek.v.
 
     MOSEK is not installed: its API semantics ([step]) and its dual convention ([dual_eq], [Sbar_pair]) are
     ASSUMPTIONS, stated in harness/standin/mosek/__init__.py (A1-A3) and implemented there for the real wrapper
     code to run against. *)
 From Coq Require Import List QArith Reals Qreals Bool Arith.
 From PV Require Import Model.Dict Model.Terms Model.Sent Model.Matrices Model.Mosek Spec.GramSem
-     Proofs.DictLemmas Proofs.C05Spec Proofs.C11Run Proofs.C11Sem Proofs.C11Refuted.
+     Proofs.DictLemmas Proofs.C05Spec Proofs.C11Run Proofs.C11Sem Proofs.C11Regress.
 Import ListNotations.
 Local Open Scope nat_scope.
 
-(** For EVERY declared model (any number of scalar constraints and LMIs of any size in any interleaving), any
-    numbers of leaf points / leaf expressions, under the guard
-      - what is sent is well formed (existing leaves, valid sparse triples, square LMIs; true of every PEPit object),
-      - the objective leaf exists,
-      - the PSDMatrix counters of the LMIs are 0,1,2,... in send order            (excludes F-C11a),
-      - at most 128 rows                                                            (excludes F-C11c),
-    the Task calls issued by MosekWrapper are all accepted by the API and the task denotes EXACTLY the declared
-    SDP: one row per scalar constraint with its sense and bound, n*n coupling rows per LMI attached to that LMI's own
-    matrix variable, free leaf-expression variables, objective = the objective leaf, maximise. *)
-Theorem C11_same_sdp_partial :
-  forall (l : sent) (pc ec obj : nat) (ctrs : list nat),
-    guard l pc ec obj ctrs = true ->
-    task_denote (emit l pc ec obj ctrs) = Some (sdp_of l pc ec obj).
+(** For EVERY declared model (any number of scalar constraints and LMIs of any size in any interleaving, any
+    creation order of the PSDMatrix objects, leaf expressions created before or after the objective), any numbers of
+    leaf points / leaf expressions, the Task calls issued by MosekWrapper are all accepted by the API and the task
+    denotes EXACTLY the declared SDP: one row per scalar constraint with its sense and bound, n*n coupling rows per LMI
+    attached to that LMI's own matrix variable, free leaf-expression variables, objective = the objective leaf,
+    maximise.  Hypothesis [guard] -- NO conjunct excludes a defect any more:
+      - what is sent is well formed (existing leaves, valid sparse triples, square LMIs: true of every PEPit object),
+      - the objective leaf exists ([obj < ec]),
+      - the number of rows is at most 2^31: row indices are built as int32, the native index type of the MOSEK API
+        itself (a problem with more rows cannot be expressed in that API at all). *)
+Theorem C11_same_sdp :
+  forall (l : sent) (pc ec obj : nat),
+    guard l pc ec obj = true ->
+    task_denote (emit l pc ec obj) = Some (sdp_of l pc ec obj).
 Proof. exact same_sdp. Qed.
 
 (** What the declared SDP's rows mean: for symmetric G = X 0 and symmetric matrix variables X (k+1), all rows hold
@@ -62,85 +63,68 @@ Theorem C11_lagrangian :
               = (ysum y (row_val x X) (d_rows d) 0 + sumn (length (d_bars d)) (fun j => Sbar_pair d y j (X j)))%R.
 Proof. exact lagrangian_identity. Qed.
 
-(** Dimension reduction.  Under the guard, with fewer than 128 rows, AND the objective being the last leaf
-    expression (excludes F-C11b), after prepare_heuristic and heuristic(W) the task denotes the declared second
-    problem: minimise <W,G> over the same rows plus  -tau <= -(wc - tol). *)
-Theorem C11_heuristic_partial :
-  forall (l : sent) (pc ec obj : nat) (ctrs : list nat) (v : Q) (W : list triple),
-    guard l pc ec obj ctrs = true -> objective_is_last_leaf ec obj = true ->
-    (total_rows l < 128)%nat -> valid_triples pc W = true ->
-    task_denote (emit l pc ec obj ctrs ++ solve_reads ++ recover_reads l
+(** Dimension reduction.  For every such model (row index of the extra row must still fit int32), after
+    prepare_heuristic and heuristic(W) the task denotes the declared second problem: minimise <W,G> over the same
+    rows plus  -tau <= -(wc - tol)  -- wherever the objective leaf sits among the leaf expressions. *)
+Theorem C11_heuristic :
+  forall (l : sent) (pc ec obj : nat) (v : Q) (W : list triple),
+    guard l pc ec obj = true -> int32_ok (total_rows l) = true -> valid_triples pc W = true ->
+    task_denote (emit l pc ec obj ++ solve_reads ++ recover_reads l
                  ++ emit_prepare pc ec obj (total_rows l) (total_syms l) v
                  ++ emit_heuristic pc (S (total_syms l)) W)
     = Some (sdp_heur l pc ec obj v W).
 Proof. exact heuristic_sdp. Qed.
 
-(** [tau = xx[-2]] is the objective's variable when the objective is the last leaf *)
-Theorem C11_readout_partial :
-  forall ec obj, objective_is_last_leaf ec obj = true -> readout_index (S ec) = obj.
-Proof. exact readout_last_leaf. Qed.
+(** the value solve() returns is the objective's variable *)
+Theorem C11_readout :
+  forall (xx : list Q) (obj : nat) (st : prosta), mosek_solve_value xx obj st = Some (nth obj xx 0%Q).
+Proof. exact readout_objective. Qed.
 
-(** The guard is needed (each is a finding, replayed on the real wrapper on the stand-in). *)
-Theorem C11_barvar_index_refuted :
-  exists l pc ec obj ctrs,
-    wf_sent pc ec l = true /\ Nat.ltb obj ec = true /\ rows_fit_int8 l = true /\ objective_is_last_leaf ec obj = true
-    /\ counters_in_send_order ctrs l = false
-    /\ task_denote (emit l pc ec obj ctrs) = None.
-Proof. exact barvar_index_refuted. Qed.
-
-Theorem C11_int8_refuted :
-  exists l pc ec obj ctrs,
-    wf_sent pc ec l = true /\ Nat.ltb obj ec = true /\ counters_in_send_order ctrs l = true
-    /\ objective_is_last_leaf ec obj = true /\ rows_fit_int8 l = false
-    /\ task_denote (emit l pc ec obj ctrs) = None
-    /\ last (run_prefix (emit l pc ec obj ctrs) t0) TOptimize = TPyOverflow.
-Proof. exact int8_refuted. Qed.
-
-Theorem C11_objective_last_leaf_refuted :
-  exists l pc ec obj ctrs v W,
-    guard l pc ec obj ctrs = true /\ Nat.ltb (total_rows l) 128 = true /\ valid_triples pc W = true
-    /\ objective_is_last_leaf ec obj = false
-    /\ task_denote (emit l pc ec obj ctrs) = Some (sdp_of l pc ec obj)
-    /\ readout_index (S ec) <> obj
-    /\ task_denote (emit l pc ec obj ctrs ++ solve_reads ++ recover_reads l
-                    ++ emit_prepare pc ec obj (total_rows l) (total_syms l) v
-                    ++ emit_heuristic pc (S (total_syms l)) W)
-       <> Some (sdp_heur l pc ec obj v W)
-    /\ (exists d, task_denote (emit l pc ec obj ctrs ++ solve_reads ++ recover_reads l
-                               ++ emit_prepare pc ec obj (total_rows l) (total_syms l) v
-                               ++ emit_heuristic pc (S (total_syms l)) W) = Some d
-                  /\ d_c d = [(obj, 1%Q); ((ec - 1)%nat, 0%Q)]).
-Proof. exact objective_last_leaf_refuted. Qed.
-
+(** OPEN finding F-C11d: the returned value does not depend on the problem status; the cvxpy path returns None. *)
 Theorem C11_status_refuted :
-  exists xx st v, st <> PrimAndDualFeas /\ mosek_solve_value xx st <> None /\ cvxpy_solve_value v st = None.
+  exists xx obj st v, st <> PrimAndDualFeas /\ mosek_solve_value xx obj st <> None /\ cvxpy_solve_value v st = None.
 Proof. exact status_refuted. Qed.
 
-(** Non-vacuity.  (1) the guard holds on a model with an LMI and the theorem's conclusion is computed;
-    (2) 128 rows are fine; (3) the hypotheses of C11_duals are satisfiable: model  tau <= <p0,p0> ; <p0,p0> <= 1
-    with y = (1, 1): A^T y = c, and the identity reads  tau - 1 = (tau - G00) + (G00 - 1). *)
+(** Non-vacuity and REGRESSION examples (the latter restate the index expressions used before the repairs
+    067bbb4 / 88e1f86 / 54e4665 -- see Proofs/C11Regress.v -- and show them wrong where the current ones are right).
+    C11_example_duals: the hypotheses of C11_duals are satisfiable: model  tau <= <p0,p0> ; <p0,p0> <= 1  with
+    y = (1, 1): A^T y = c, and the identity reads  tau - 1 = (tau - G00) + (G00 - 1). *)
 Example C11_example_guard :
-  guard w_sent 1 2 1 [0] = true /\ task_denote (emit w_sent 1 2 1 [0]) = Some (sdp_of w_sent 1 2 1).
-Proof. exact barvar_index_ok. Qed.
+  guard w_sent 1 2 1 = true /\ task_denote (emit w_sent 1 2 1) = Some (sdp_of w_sent 1 2 1).
+Proof. exact lmi_model_ok. Qed.
 
-Example C11_example_128_rows :
-  let l := repeat (SC [(KF 0, 1%Q); (K1, (- (1))%Q)] Ineq) 128 in
-  guard l 1 1 0 [] = true /\ task_denote (emit l 1 1 0 []) = Some (sdp_of l 1 1 0).
-Proof. exact int8_boundary_ok. Qed.
+Example C11_regression_barvar_index :
+  let before := prologue 1 2 ++ emit_sc 1 0 0 [(KF 1, 1%Q); (KF 0, (- (1))%Q)] Ineq ++ [TAppendBarvars [2]] in
+  run (before ++ emit_entries 1 2 (old_bar_index 1) 1 1 (entries w_lmi)) t0 = None
+  /\ (exists st, run (before ++ emit_entries 1 2 (2 - 1) 1 1 (entries w_lmi)) t0 = Some st).
+Proof. exact regress_barvar_index. Qed.
+
+Example C11_regression_int8 :
+  old_int8_ok 128 = false /\ int32_ok 128 = true
+  /\ guard w_many 1 1 0 = true /\ task_denote (emit w_many 1 1 0) = Some (sdp_of w_many 1 1 0).
+Proof. exact regress_int8. Qed.
+
+Example C11_regression_objective_index :
+  old_readout_index 4 <> 1
+  /\ put_c 4 [(1, 1%Q)] [3 - 1] [0%Q] = Some [(1, 1%Q); (2, 0%Q)]
+  /\ put_c 4 [(1, 1%Q)] [1] [0%Q] = Some [(1, 0%Q)]
+  /\ guard w_leaf 1 3 1 = true
+  /\ task_denote (emit w_leaf 1 3 1 ++ solve_reads ++ recover_reads w_leaf
+                  ++ emit_prepare 1 3 1 (total_rows w_leaf) (total_syms w_leaf) (1 # 2)
+                  ++ emit_heuristic 1 (S (total_syms w_leaf)) (identity_triples 1))
+     = Some (sdp_heur w_leaf 1 3 1 (1 # 2) (identity_triples 1)).
+Proof. exact regress_objective_index. Qed.
 
 Example C11_example_duals :
   let l := [SC [(KF 0, 1%Q); (KG 0 0, (- (1))%Q)] Ineq; SC [(KG 0 0, 1%Q); (K1, (- (1))%Q)] Ineq] in
-  wfR l /\ dual_eq (sdp_of l 1 1 0) (fun _ => 1%R) /\ guard l 1 1 0 [] = true.
+  wfR l /\ dual_eq (sdp_of l 1 1 0) (fun _ => 1%R) /\ guard l 1 1 0 = true.
 Proof. exact duals_example. Qed.
 
-Print Assumptions C11_same_sdp_partial.
+Print Assumptions C11_same_sdp.
 Print Assumptions C11_rows_meaning.
 Print Assumptions C11_coupling_weights.
 Print Assumptions C11_duals.
 Print Assumptions C11_lagrangian.
-Print Assumptions C11_heuristic_partial.
-Print Assumptions C11_readout_partial.
-Print Assumptions C11_barvar_index_refuted.
-Print Assumptions C11_int8_refuted.
-Print Assumptions C11_objective_last_leaf_refuted.
+Print Assumptions C11_heuristic.
+Print Assumptions C11_readout.
 Print Assumptions C11_status_refuted.
